@@ -273,9 +273,13 @@ def run_from_table(ctx):
     f = ctx.engine.func(FT)
     outs = ctx.engine.run_paths(f, mk, pc=[tm.ge(n, tm.const(2)), tm.ge(m, tm.const(2))])
     rets = [o for o in outs if o.kind == "return"]
-    if len(rets) != 1:
-        raise sx.OutOfSubset(f"from_table: {len(rets)} returning paths of {len(outs)} ({[o.value for o in outs if o.kind != 'return']})")
-    return rets[0], holder["tb"]
+    if len(rets) == 0:
+        raise sx.OutOfSubset(f"from_table: no returning path of {len(outs)} ({[o.value for o in outs if o.kind != 'return']})")
+    # several returning paths (e.g. a special case for tables whose own pseudopressure column looks usable): the contract holds on
+    # each of them; the runner repeats the obligation per path (see resv.PATH_SELECT)
+    from . import resv
+    resv.LAST_NPATHS[0] = max(resv.LAST_NPATHS[0], len(rets))
+    return rets[min(resv.PATH_SELECT[0], len(rets) - 1)], holder["tb"]
 
 
 def spec_names(interps, tb=None):
